@@ -6,6 +6,7 @@ mod cmd_vector;
 mod cmd_table;
 mod cmd_pow;
 mod cmd_queries;
+mod cmd_config;
 mod merkle;
 mod hashes;
 mod terms;
@@ -25,6 +26,7 @@ fn main() {
         "table" => cmd_table::run(rest),
         "pow" => cmd_pow::run(rest),
         "queries" => cmd_queries::run(rest),
+        "config" => cmd_config::run(rest),
         "build-info" => {
             println!("{}", build_info());
         }
